@@ -455,8 +455,10 @@ def run_cli_steps(report, rng):
     art = lambda col, k=0: f'<svg xmlns="http://www.w3.org/2000/svg" viewBox="0 0 100 100"><path d="M{10 + k},10 L{40 + k},10 L{40 + k},{40 + k} Z" fill="{col}"/></svg>'
     # ---- a static build from file names in the usual spellings (variation selectors, ZWJ, upper case, prefixes)
     names = ["2764-fe0f.svg", "1f3f3-fe0f-200d-1f308.svg", "emoji_u1f468_200d_2764_fe0f_200d_1f468.svg", "1F9D1-200D-1F91D-200D-1F9D1.svg", "emoji_u1f600.svg", "u1f601.svg"]
-    with scratch_dir("verif-c10cli-") as d:
-        (d / "src").mkdir()
+    with scratch_dir("verif-c10cli-") as d0:
+        # a space and an apostrophe on the way: ninja quotes paths into commands and response files, the steps split them
+        d = d0 / "my font's files"
+        (d / "src").mkdir(parents=True)
         for k, n_ in enumerate(names):
             (d / "src" / n_).write_text(art("#%02x4080" % (20 * k), k))
         flags = ["--family", "Steps Fam", "--upem", "1000", "--ascender", "800", "--descender", "-200", "--width", "0", "--nokeep_glyph_names", "--color_format", "glyf_colr_1"]
